@@ -325,6 +325,99 @@ def case_format_history(case):
             "sample": sample}
 
 
+FLOAT_TOKEN = __import__("re").compile(r"(?<![\w.])[-+]?(?:\d+\.\d*|\.\d+)(?:[eEdD][-+]?\d+)?(?![\w.])")
+FIB = [0, 1, 2, 3, 5, 8, 13, 21, 34, 55, 89, 144, 233, 377, 610, 987]
+
+
+def damaged_variants(text):
+    """(label, text) variants of a file in which ONE real number is replaced by 0.0, -1.0 or 1.0e400 (positions 0, 1, 2, 3, 5, 8,
+    13, ... of the real-number tokens), plus the file cut in the middle: the inputs of calls that fail, or succeed oddly."""
+    toks = list(FLOAT_TOKEN.finditer(text))
+    out = []
+    for pos in FIB:
+        if pos >= len(toks):
+            break
+        m = toks[pos]
+        for name, repl in (("zero", "0.0"), ("neg", "-1.0"), ("huge", "1.0e400")):
+            width = m.end() - m.start()
+            out.append((f"{name}@{pos}", text[:m.start()] + repl.rjust(width)[:max(width, len(repl))] + text[m.end():]))
+        # the same number replaced wherever it occurs (a repeated exponent, a repeated coordinate): a consistent damage
+        same = [t for t in toks if t.group() == m.group()]
+        if 1 < len(same) <= 12:
+            bad = text
+            for t in reversed(same):
+                bad = bad[:t.start()] + "0.0".rjust(t.end() - t.start()) + bad[t.end():]
+            out.append((f"zero-everywhere@{pos}", bad))
+    lines = text.splitlines(keepends=True)
+    out.append(("cut", "".join(lines[:max(1, len(lines) // 2)])))
+    return out
+
+
+def case_failure_history(case):
+    """Hundreds of loads of damaged files (most of them failing) in one interpreter: after every one the module tables and
+    the interpreter-global settings must be what they were, and a fixed set of healthy calls repeated in between must keep
+    giving the digests they give alone in a fresh interpreter."""
+    import iodata
+
+    specs = pool()
+    healthy = [s["id"] for s in specs if s["op"] in ("load_one", "convert")][case["part"]::case["nparts"]][:10]
+    byfmt = {}
+    for e in sorted(corpus.entries(max_cost=0.25, max_size=60_000), key=lambda e: e["size"]):
+        byfmt.setdefault(e["fmt"], [])
+        if len(byfmt[e["fmt"]]) < 2:
+            byfmt[e["fmt"]].append(e)  # the two smallest files of every format
+    victims = [e for _f, lst in sorted(byfmt.items()) for e in lst][case["part"]::case["nparts"]]
+    root = tempfile.mkdtemp(prefix="vf_c16f_")
+    viols, feats = [], []
+    counters = {"baseline_subprocesses": 0, "damaged_loads": 0, "damaged_load_failures": 0, "digest_comparisons": 0, "table_snapshots": 0,
+                "failure_histories": 1}
+    try:
+        base = baseline(healthy, root)
+        counters["baseline_subprocesses"] = len(base)
+        for sid, dg in base.items():
+            if dg.startswith("NO-DIGEST"):
+                return {"status": "inconclusive", "reason": f"baseline subprocess of call {sid} gave no digest: {dg}"}
+        t0 = tables.tables_snapshot()
+        ncall = 0
+        for e in victims:
+            with open(e["path"], errors="replace") as fh:
+                text = fh.read()
+            for label, bad in damaged_variants(text):
+                path = os.path.join(root, os.path.basename(e["path"]))
+                with open(path, "w") as fh:
+                    fh.write(bad)
+                with warnings.catch_warnings():
+                    warnings.simplefilter("ignore")
+                    try:
+                        iodata.load_one(path, fmt=e["fmt"] if e["explicit"] else None)
+                    except Exception:
+                        counters["damaged_load_failures"] += 1
+                counters["damaged_loads"] += 1
+                ncall += 1
+                t1 = tables.tables_snapshot()
+                counters["table_snapshots"] += 1
+                dd = tables.tables_diff(t0, t1)
+                if dd:
+                    viols.append(_v(f"module-table-modified:{dd[0][0].split('[')[0]}", f"loading {e['file']} damaged by {label} left "
+                                    f"{dd[0][0]} changed: {dd[0][1]} -> {dd[0][2]}"))
+                    t0 = t1
+                if ncall % 40 == 0 or label == "cut":
+                    for sid in healthy:
+                        dg = execute(specs[sid], os.path.join(root, f"h{ncall}_{sid}"))
+                        counters["digest_comparisons"] += 1
+                        if dg != base[sid]:
+                            viols.append(_v(f"history-dependent:{specs[sid]['op']}", f"call {describe(specs[sid])} after {ncall} loads of damaged files "
+                                            f"(last: {e['file']} {label}) gives {dg[:120]} but {base[sid][:120]} alone in a fresh interpreter"))
+            feats.append(f"failure-history:{e['fmt']}")
+    finally:
+        shutil.rmtree(root, ignore_errors=True)
+    bykey = {}
+    for v in viols:
+        bykey.setdefault(v["key"], v)
+    sample = {"kind": "failure_history", "formats": [e["fmt"] for e in victims], "damaged_loads": counters["damaged_loads"]}
+    return {"status": "violation" if viols else "ok", "violations": list(bykey.values()), "features": feats, "counters": counters, "sample": sample}
+
+
 def baseline(spec_ids, root):
     """Digest of each call alone in a fresh interpreter."""
     out = {}
@@ -366,6 +459,9 @@ def plan(tier, seed):
         cases.append({"kind": "format_history", "writer": name, "seed": seed, "tier": tier})
     for fmt in go.DUMP_FORMATS:
         cases.append({"kind": "format_history", "writer": "dump:" + fmt, "seed": seed, "tier": tier})
+    nparts = 8
+    for part in range(nparts):
+        cases.append({"kind": "failure_history", "part": part, "nparts": nparts})
     return cases
 
 
@@ -382,6 +478,8 @@ def describe(spec):
 def run_case(case):
     if case["kind"] == "format_history":
         return case_format_history(case)
+    if case["kind"] == "failure_history":
+        return case_failure_history(case)
     specs = pool()
     rng = gb.rng_for(16, case["seed"], case["i"], 1 if case["kind"] == "history" else 2)
     chosen = sorted(int(i) for i in rng.choice(len(specs), size=min(12, len(specs)), replace=False))
